@@ -126,11 +126,10 @@ func (s *session) delete() error {
 			)
 			continue
 		}
-		if unescapedKey != "" {
-			deletes = append(deletes, &proto.DeleteRequest{
-				Key: unescapedKey,
-			})
-		}
+		// (the empty key is a key like any other: its shadow key is the session key followed by "/")
+		deletes = append(deletes, &proto.DeleteRequest{
+			Key: unescapedKey,
+		})
 	}
 
 	// Delete the base session metadata
